@@ -27,6 +27,8 @@ type c20Family struct {
 	list *ssa.Function
 	kind string
 	pos  token.Pos
+	F    *frames
+	fr   *frame // activation of the generator closure (bindings of captured helper parameters)
 }
 
 // c20Families finds the FamilyGenerator literals of every generator list handed to AddMetrics.
@@ -110,6 +112,57 @@ func c20Families(r *Run) []c20Family {
 					out = append(out, c20Family{name: name, gen: gen, list: list, kind: kind, pos: instrPos(st)})
 				}
 			}
+			// families built by a repository helper that returns a FamilyGenerator literal: the name and the
+			// generator are read off the helper's literal, seen with the arguments of this call
+			for _, ci := range callsIn(list) {
+				call, isCall := ci.(*ssa.Call)
+				if !isCall || typeName(call.Type()) != c20PkgKSGen+".FamilyGenerator" {
+					continue
+				}
+				fpos := r.Prog.Pos(call.Pos())
+				F := newFrames(r.Prog)
+				H, hfr := F.callFrame(call, nil)
+				if H == nil || !r.Prog.IsRuleSite(H) {
+					r.Undecided("C20.R1", "family built by a helper", fpos, shortFunc(list), "the FamilyGenerator comes from "+calleeName(&call.Call))
+					continue
+				}
+				var lit ssa.Value
+				if rv := singleReturn(H, 0); rv != nil {
+					if u, isL := rv.(*ssa.UnOp); isL && u.Op == token.MUL {
+						lit = u.X
+					}
+				}
+				if lit == nil {
+					r.Undecided("C20.R1", "family built by "+H.Name(), fpos, shortFunc(list), "the helper does not return one FamilyGenerator literal")
+					continue
+				}
+				ns, gfs := fieldStores(lit, "Name"), fieldStores(lit, "GenerateFunc")
+				name, isC := "", false
+				if len(ns) == 1 {
+					name, isC = constString(F.resolve(fval{ns[0], hfr}).v)
+				}
+				var gen *ssa.Function
+				var gfr *frame
+				if len(gfs) == 1 {
+					switch gv := gfs[0].(type) {
+					case *ssa.Function:
+						gen, gfr = gv, F.top(gv)
+					case *ssa.MakeClosure:
+						gen, _ = gv.Fn.(*ssa.Function)
+						if gen != nil {
+							gfr = F.top(gen)
+							for _, bnd := range gv.Bindings {
+								gfr.free = append(gfr.free, fval{bnd, hfr})
+							}
+						}
+					}
+				}
+				if !isC || gen == nil || len(gen.Params) != 1 {
+					r.Undecided("C20.R1", "family built by "+H.Name(), fpos, shortFunc(list), "name is not a constant at this call or GenerateFunc is not a function literal")
+					continue
+				}
+				out = append(out, c20Family{name: name, gen: gen, list: list, kind: kind, pos: call.Pos(), F: F, fr: gfr})
+			}
 		}
 	}
 	if nReg == 0 {
@@ -124,6 +177,8 @@ type c20Gen struct {
 	obj    ssa.Value // the asserted object
 	okFlag ssa.Value // comma-ok result of the assertion (nil for the panicking form)
 	typ    types.Type
+	F      *frames
+	fr     *frame
 }
 
 func c20Analyse(fn *ssa.Function) (*c20Gen, string) {
@@ -195,12 +250,88 @@ func (g *c20Gen) isLoadOf(v ssa.Value, want ...string) bool {
 	return g.isPath(v, want...)
 }
 
-// c20Metric locates the single Metric of the Family returned on a path: the stores of its Value,
-// LabelKeys and LabelValues fields.
-type c20Metric struct{ value, keys, values *ssa.Store }
+// pathF: field path of a value seen through helper parameters / captured functions, rooted at the
+// asserted object of the generator (nil otherwise).
+func (g *c20Gen) pathF(x fval) []string {
+	var path []string
+	for i := 0; i < 16; i++ {
+		root, p := accessPathThroughCopies(unwrap(x.v))
+		path = append(append([]string{}, p...), path...)
+		r := g.F.resolve(fval{root, x.fr})
+		if r.v == root && r.fr == x.fr {
+			if r.v == g.obj && r.fr == g.fr && len(path) > 0 {
+				return path
+			}
+			return nil
+		}
+		x = r
+	}
+	return nil
+}
 
-func c20MetricOf(p *Path, ret *ssa.Return) (*c20Metric, string) {
-	fam, ok := unwrap(p.Resolve(ret.Results[0])).(*ssa.Alloc)
+func (g *c20Gen) isLoadOfF(x fval, want ...string) bool {
+	v := unwrap(x.v)
+	if u, ok := v.(*ssa.UnOp); !ok || u.Op != token.MUL {
+		if _, isF := v.(*ssa.Field); !isF {
+			return false
+		}
+	}
+	return samePath(g.pathF(x), want)
+}
+
+// valueF resolves a metric value: phis along the generator's path, conversions, helper parameters,
+// captured function values and calls of repository functions that return one value.
+func (g *c20Gen) valueF(p *Path, x fval) fval {
+	for i := 0; i < 32; i++ {
+		y := g.F.resolve(x)
+		if y.fr == g.fr {
+			y.v = p.Resolve(y.v)
+		}
+		switch c := y.v.(type) {
+		case *ssa.Convert:
+			y.v = c.X
+		case *ssa.ChangeType:
+			y.v = c.X
+		case *ssa.Call:
+			if _, isB := c.Call.Value.(*ssa.Builtin); !isB {
+				if fn2, fr2 := g.F.callFrame(c, y.fr); fn2 != nil && g.F.prog.IsRuleSite(fn2) {
+					if rv := singleReturn(fn2, 0); rv != nil {
+						y = fval{rv, fr2}
+					}
+				}
+			}
+		}
+		if y == x {
+			return x
+		}
+		x = y
+	}
+	return x
+}
+
+// c20Metric locates the single Metric of the Family returned on a path: the values stored into its
+// Value, LabelKeys and LabelValues fields (in the generator, or in a repository helper that builds the Family).
+type c20Metric struct{ value, keys, values fval }
+
+func c20MetricOf(g *c20Gen, p *Path, ret *ssa.Return) (*c20Metric, string) {
+	x := fval{p.Resolve(ret.Results[0]), g.fr}
+	var builder *ssa.Function // helper in which the Family is built (nil: the generator itself)
+	for i := 0; i < 4; i++ {
+		call, isCall := unwrap(x.v).(*ssa.Call)
+		if !isCall {
+			break
+		}
+		fn2, fr2 := g.F.callFrame(call, x.fr)
+		if fn2 == nil || !g.F.prog.IsRuleSite(fn2) {
+			break
+		}
+		rv := singleReturn(fn2, 0)
+		if rv == nil {
+			return nil, shortFunc(fn2) + " does not return one Family literal"
+		}
+		x, builder = fval{rv, fr2}, fn2
+	}
+	fam, ok := unwrap(x.v).(*ssa.Alloc)
 	if !ok || typeName(fam.Type()) != c20PkgKSMetric+".Family" {
 		return nil, "returned value is not a Family literal"
 	}
@@ -232,16 +363,24 @@ func c20MetricOf(p *Path, ret *ssa.Return) (*c20Metric, string) {
 		}
 		return found[0]
 	}
-	out := &c20Metric{value: one("Value"), keys: one("LabelKeys"), values: one("LabelValues")}
-	if out.value == nil || out.keys == nil || out.values == nil {
+	sv, sk, sl := one("Value"), one("LabelKeys"), one("LabelValues")
+	if sv == nil || sk == nil || sl == nil {
 		return nil, "Value, LabelKeys and LabelValues are not each stored exactly once"
 	}
-	for _, st := range []*ssa.Store{out.value, out.keys, out.values} {
-		if !p.Contains(st.Block()) {
-			return nil, "a field of the metric is not stored on this path"
+	for _, st := range []*ssa.Store{sv, sk, sl} {
+		if builder == nil {
+			if !p.Contains(st.Block()) {
+				return nil, "a field of the metric is not stored on this path"
+			}
+			continue
+		}
+		for _, rb := range builder.Blocks {
+			if returnOf(rb) != nil && !st.Block().Dominates(rb) {
+				return nil, "a field of the metric is not stored on every path of " + shortFunc(builder)
+			}
 		}
 	}
-	return out, ""
+	return &c20Metric{value: fval{sv.Val, x.fr}, keys: fval{sk.Val, x.fr}, values: fval{sl.Val, x.fr}}, ""
 }
 
 // c20Atom is one defining fact of a derived family.
@@ -342,6 +481,11 @@ func c20Family1(r *Run, f c20Family, derived map[string]c20Derived, build, getLV
 		r.Undecided("C20.R1", "family "+f.name+" kind", pos, sfn, why)
 		return
 	}
+	g.F, g.fr = f.F, f.fr
+	if g.F == nil {
+		g.F = newFrames(r.Prog)
+		g.fr = g.F.top(fn)
+	}
 	kindOK := isPtrToNamed(g.typ, pkgAPI, f.kind)
 	r.Check("C20.R1", "family "+f.name+" kind", pos, sfn, "generator asserts *"+f.kind+", the kind its family set is registered for", kindOK, "asserts "+g.typ.String())
 	statusStruct := func() *types.Struct {
@@ -402,18 +546,20 @@ func c20Family1(r *Run, f c20Family, derived map[string]c20Derived, build, getLV
 			}
 			continue
 		}
-		m, why := c20MetricOf(p, ret)
+		m, why := c20MetricOf(g, p, ret)
 		if m == nil {
 			valOK, valWhy = false, "undecided: "+why
 			pairOK, pairWhy = false, "undecided: "+why
 			continue
 		}
 		nPaths++
-		val := resolveDeep(p, m.value.Val)
+		valF := g.valueF(p, m.value)
+		val := valF.v
+		inGen := valF.fr == g.fr
 		switch {
 		case field != "":
-			if !g.isLoadOf(val, "Status", field) {
-				valOK, valWhy = false, fmt.Sprintf("Value is %s, not a conversion of obj.Status.%s", c20Describe(g, val), field)
+			if !g.isLoadOfF(valF, "Status", field) {
+				valOK, valWhy = false, fmt.Sprintf("Value is %s, not a conversion of obj.Status.%s", c20DescribeF(g, valF), field)
 			}
 		case special == "labels":
 			if !c20One(g, val) {
@@ -421,11 +567,13 @@ func c20Family1(r *Run, f c20Family, derived map[string]c20Derived, build, getLV
 			}
 		case special == "created":
 			if !dependsOn(val, func(x ssa.Value) bool {
-				pp := g.path(x)
+				pp := g.pathF(fval{x, valF.fr})
 				return len(pp) > 0 && pp[len(pp)-1] == "CreationTimestamp" || len(pp) > 1 && pp[len(pp)-2] == "CreationTimestamp"
 			}) {
 				valOK, valWhy = false, "Value does not derive from the object's CreationTimestamp"
 			}
+		case !inGen && !func() bool { z, isNum := constNum(val); return isNum && (z == 0 || z == 1) }():
+			valOK, valWhy = false, "undecided: the value of a derived family is computed outside the generator: "+val.String()
 		default:
 			allTrue, someFalse := true, false
 			var missing []string
@@ -455,8 +603,8 @@ func c20Family1(r *Run, f c20Family, derived map[string]c20Derived, build, getLV
 			}
 		}
 		// R4: lock-step construction of keys and values
-		ks, ok1 := c20Seq(p, m.keys.Val, 0)
-		vs, ok2 := c20Seq(p, m.values.Val, 0)
+		ks, ok1 := c20Seq(g.F, g.fr, p, m.keys, 0)
+		vs, ok2 := c20Seq(g.F, g.fr, p, m.values, 0)
 		if !ok1 || !ok2 {
 			pairOK, pairWhy = false, "undecided: LabelKeys/LabelValues are not built from pair-function results, appends and literals"
 			continue
@@ -497,6 +645,13 @@ func c20Family1(r *Run, f c20Family, derived map[string]c20Derived, build, getLV
 		"LabelKeys/LabelValues are the #0/#1 results of the same GetLabelsValues/BuildInfoLabels calls on the asserted object, plus constant keys paired one-to-one with values", pairOK, pairWhy)
 }
 
+func c20DescribeF(g *c20Gen, x fval) string {
+	if p := g.pathF(x); p != nil {
+		return "obj." + strings.Join(p, ".")
+	}
+	return x.v.String()
+}
+
 func c20Describe(g *c20Gen, v ssa.Value) string {
 	if p := g.path(v); p != nil {
 		return "obj." + strings.Join(p, ".")
@@ -509,44 +664,52 @@ type c20Elem struct {
 	call   *ssa.Call
 	idx    int
 	scalar ssa.Value
+	fr     *frame
 }
 
-func c20Seq(p *Path, v ssa.Value, depth int) ([]c20Elem, bool) {
+// c20Seq reads a label slice as a sequence of segments; values are followed through helper
+// parameters (F, fr), phis are resolved along the path p of the top frame.
+func c20Seq(F *frames, top *frame, p *Path, x fval, depth int) ([]c20Elem, bool) {
 	if depth > 12 {
 		return nil, false
 	}
-	v = p.Resolve(v)
-	switch x := v.(type) {
+	if F != nil {
+		x = F.resolve(x)
+	}
+	if x.fr == top {
+		x.v = p.Resolve(x.v)
+	}
+	switch y := x.v.(type) {
 	case *ssa.Const:
-		if x.IsNil() {
+		if y.IsNil() {
 			return nil, true
 		}
 	case *ssa.Extract:
-		if c, ok := x.Tuple.(*ssa.Call); ok {
-			return []c20Elem{{call: c, idx: x.Index}}, true
+		if c, ok := y.Tuple.(*ssa.Call); ok {
+			return []c20Elem{{call: c, idx: y.Index, fr: x.fr}}, true
 		}
 	case *ssa.Slice:
-		if a, ok := x.X.(*ssa.Alloc); ok && x.Low == nil && x.High == nil {
+		if a, ok := y.X.(*ssa.Alloc); ok && y.Low == nil && y.High == nil {
 			elems, ok := orderedArrayElems(a)
 			if !ok {
 				return nil, false
 			}
 			var out []c20Elem
 			for _, e := range elems {
-				out = append(out, c20Elem{scalar: e})
+				out = append(out, c20Elem{scalar: e, fr: x.fr})
 			}
 			return out, true
 		}
 	case *ssa.Call:
-		if _, ok := isBuiltinCall(x, "append"); ok {
-			a, ok1 := c20Seq(p, x.Call.Args[0], depth+1)
+		if _, ok := isBuiltinCall(y, "append"); ok {
+			a, ok1 := c20Seq(F, top, p, fval{y.Call.Args[0], x.fr}, depth+1)
 			if !ok1 {
 				return nil, false
 			}
-			if len(x.Call.Args) < 2 {
+			if len(y.Call.Args) < 2 {
 				return a, true
 			}
-			b, ok2 := c20Seq(p, x.Call.Args[1], depth+1)
+			b, ok2 := c20Seq(F, top, p, fval{y.Call.Args[1], x.fr}, depth+1)
 			if !ok2 {
 				return nil, false
 			}
@@ -571,7 +734,7 @@ func c20PairSeq(g *c20Gen, ks, vs []c20Elem, build, getLV *ssa.Function) string 
 			}
 			continue
 		}
-		if k.call != v.call {
+		if k.call != v.call || k.fr != v.fr {
 			return fmt.Sprintf("segment %d: keys and values come from different calls", i)
 		}
 		if k.idx != 0 || v.idx != 1 {
@@ -581,7 +744,7 @@ func c20PairSeq(g *c20Gen, ks, vs []c20Elem, build, getLV *ssa.Function) string 
 		if cal != build && cal != getLV {
 			return fmt.Sprintf("segment %d comes from %s, which is not one of the verified pair functions", i, calleeName(&k.call.Call))
 		}
-		if len(k.call.Call.Args) != 1 || !g.isPath(k.call.Call.Args[0], "ObjectMeta") {
+		if len(k.call.Call.Args) != 1 || !samePath(g.pathF(fval{k.call.Call.Args[0], k.fr}), []string{"ObjectMeta"}) {
 			return fmt.Sprintf("segment %d: %s is not called on the asserted object's ObjectMeta", i, shortFunc(cal))
 		}
 	}
@@ -606,8 +769,8 @@ func c20GetLabelsValues(r *Run, fn *ssa.Function) {
 			r.Undecided("C20.R3", construct, pos, shortFunc(fn), "unexpected result count")
 			continue
 		}
-		ks, ok1 := c20Seq(p, ret.Results[0], 0)
-		vs, ok2 := c20Seq(p, ret.Results[1], 0)
+		ks, ok1 := c20Seq(nil, nil, p, fval{v: ret.Results[0]}, 0)
+		vs, ok2 := c20Seq(nil, nil, p, fval{v: ret.Results[1]}, 0)
 		if !ok1 || !ok2 {
 			r.Undecided("C20.R3", construct, r.Prog.Pos(instrPos(ret)), shortFunc(fn), "results are not slice literals")
 			continue
@@ -647,197 +810,407 @@ func c20GetLabelsValues(r *Run, fn *ssa.Function) {
 // ---------------------------------------------------------------------------------------------
 // R2
 
-// c20Raw decides whether string values are label keys taken unchanged from `range obj.Labels`.
-type c20Raw struct {
-	fn      *ssa.Function
-	obj     *ssa.Parameter
-	memo    map[ssa.Value]int // 1 in progress/true, 2 false
-	why     string
-	sorted  bool
-	rangeIt *ssa.Range
+// The label-info analysis follows every string of BuildInfoLabels back to one entry of obj.Labels:
+// a token (one iteration of `range obj.Labels`, or one element S[i] of a collection filled once per
+// iteration) and a role (the original key, its image under one function call — the sanitised name —
+// or the value).
+
+type c20Role int
+
+const (
+	c20Key c20Role = iota
+	c20Name
+	c20Value
+)
+
+func (r c20Role) String() string { return [...]string{"key", "name", "value"}[r] }
+
+type c20Tok struct {
+	next *ssa.Next // one iteration of range obj.Labels
+	coll *c20Coll  // or element idx of a collection
+	idx  ssa.Value
 }
 
-func (c *c20Raw) isLabelsMap(v ssa.Value) bool {
-	root, p := accessPath(v)
-	if root != ssa.Value(c.obj) || len(p) == 0 || p[len(p)-1] != "Labels" {
-		return false
-	}
-	for _, f := range p[:len(p)-1] {
-		if f != "ObjectMeta" {
-			return false
-		}
-	}
-	u, ok := v.(*ssa.UnOp)
-	return ok && u.Op == token.MUL
+type c20Cls struct {
+	tok  c20Tok
+	role c20Role
 }
 
-func (c *c20Raw) fail(why string) bool {
+// c20Coll is a slice filled with exactly one element per iteration of range obj.Labels.
+type c20Coll struct {
+	rep      ssa.Value // *ssa.Alloc (variable cell) or *ssa.Phi (loop variable)
+	records  bool      // elements are structs; roles maps field name -> role
+	roles    map[string]c20Role
+	next     *ssa.Next
+	ok       bool
+	why      string
+	complete bool   // one append on every iteration, starts empty, never reassigned
+	whyC     string // why not complete
+}
+
+type c20Lab struct {
+	prog  *Prog
+	fn    *ssa.Function
+	obj   *ssa.Parameter
+	k     *keyer
+	colls map[ssa.Value]*c20Coll
+	why   string
+}
+
+func (c *c20Lab) fail(why string) (c20Cls, bool) {
 	if c.why == "" {
 		c.why = why
+	}
+	return c20Cls{}, false
+}
+
+func (c *c20Lab) isLabelsMap(v ssa.Value) bool {
+	u, ok := v.(*ssa.UnOp)
+	if !ok || u.Op != token.MUL {
+		if call, isCall := v.(*ssa.Call); isCall && strings.HasSuffix(calleeName(&call.Call), ".GetLabels") && len(call.Call.Args) == 1 {
+			root, p := accessPath(call.Call.Args[0])
+			return root == ssa.Value(c.obj) && len(stripMeta(p)) == 0
+		}
+		return false
+	}
+	root, p := accessPath(v)
+	return root == ssa.Value(c.obj) && samePath(stripMeta(p), []string{"Labels"})
+}
+
+func (c *c20Lab) labelsNext(v ssa.Value) *ssa.Next {
+	ex, ok := v.(*ssa.Extract)
+	if !ok {
+		return nil
+	}
+	nx, ok := ex.Tuple.(*ssa.Next)
+	if !ok {
+		return nil
+	}
+	rg, ok := nx.Iter.(*ssa.Range)
+	if !ok || !c.isLabelsMap(rg.X) {
+		return nil
+	}
+	return nx
+}
+
+// c20RepOf returns the representative of a slice value: its variable cell or its loop phi.
+func c20RepOf(v ssa.Value) ssa.Value {
+	for i := 0; i < 8; i++ {
+		switch x := v.(type) {
+		case *ssa.ChangeType:
+			v = x.X
+			continue
+		case *ssa.Convert:
+			v = x.X
+			continue
+		case *ssa.UnOp:
+			if a, ok := x.X.(*ssa.Alloc); ok && x.Op == token.MUL {
+				return a
+			}
+		case *ssa.Phi:
+			return x
+		}
+		break
+	}
+	return nil
+}
+
+func c20IsEmptySlice(v ssa.Value) bool {
+	switch x := v.(type) {
+	case *ssa.MakeSlice:
+		n, ok := constInt(x.Len)
+		return ok && n == 0
+	case *ssa.Const:
+		return x.IsNil()
+	case *ssa.Slice:
+		if a, ok := x.X.(*ssa.Alloc); ok {
+			if at, isArr := a.Type().Underlying().(*types.Pointer).Elem().Underlying().(*types.Array); isArr && at.Len() == 0 {
+				return true
+			}
+		}
+	case *ssa.ChangeType:
+		return c20IsEmptySlice(x.X)
 	}
 	return false
 }
 
-// key: v is a raw label key.
-func (c *c20Raw) key(v ssa.Value) bool {
-	switch x := v.(type) {
-	case *ssa.Extract:
-		if nx, ok := x.Tuple.(*ssa.Next); ok && x.Index == 1 {
-			if rg, ok := nx.Iter.(*ssa.Range); ok && c.isLabelsMap(rg.X) {
-				return true
-			}
-		}
-		return c.fail("key " + v.Name() + " is not the key of a range over obj.Labels")
-	case *ssa.Phi:
-		if c.memo[v] == 1 {
-			return true
-		}
-		c.memo[v] = 1
-		for _, e := range x.Edges {
-			if !c.key(e) {
-				return false
-			}
-		}
-		return true
-	case *ssa.UnOp:
-		if x.Op == token.MUL {
-			if ia, ok := x.X.(*ssa.IndexAddr); ok {
-				return c.slice(ia.X)
-			}
-			if a, ok := x.X.(*ssa.Alloc); ok {
-				sts := cellStores(a)
-				if len(sts) == 0 || len(sts) != len(refsStores(a)) {
-					return c.fail("key variable is written through an alias")
-				}
-				for _, st := range sts {
-					if !c.key(st.Val) {
-						return false
-					}
-				}
-				return true
-			}
-		}
-	case *ssa.Index:
-		return c.slice(x.X)
-	}
-	return c.fail(fmt.Sprintf("key %s (%s) is derived, not an original key of obj.Labels", v.Name(), v.String()))
-}
-
-func refsStores(a *ssa.Alloc) []*ssa.Store {
-	var out []*ssa.Store
-	for _, rr := range refs(a) {
-		if st, ok := rr.(*ssa.Store); ok {
-			out = append(out, st)
-		}
-	}
-	return out
-}
-
-// slice: every element the slice can hold is a raw label key.
-func (c *c20Raw) slice(v ssa.Value) bool {
-	if c.memo[v] == 1 {
-		return true
-	}
-	c.memo[v] = 1
-	switch x := v.(type) {
-	case *ssa.Const:
-		if x.IsNil() {
-			return true
-		}
-	case *ssa.MakeSlice:
-		if n, ok := constInt(x.Len); ok && n == 0 {
-			return c.sliceUses(x)
-		}
-		return c.fail("key slice is made with a non-zero length (holds empty strings)")
-	case *ssa.Slice:
-		if a, ok := x.X.(*ssa.Alloc); ok {
-			elems, ok := orderedArrayElems(a)
-			if !ok {
-				return c.fail("key slice literal is not understood")
-			}
-			for _, e := range elems {
-				if !c.key(e) {
-					return false
-				}
-			}
-			return true
-		}
-		return c.slice(x.X)
-	case *ssa.Phi:
-		for _, e := range x.Edges {
-			if !c.slice(e) {
-				return false
-			}
-		}
-		return c.sliceUses(x)
-	case *ssa.Call:
-		if _, ok := isBuiltinCall(x, "append"); ok {
-			for _, a := range x.Call.Args {
-				if !c.slice(a) {
-					return false
-				}
-			}
-			return c.sliceUses(x)
-		}
-	case *ssa.UnOp:
-		if x.Op == token.MUL {
-			if a, ok := x.X.(*ssa.Alloc); ok {
-				return c.cell(a) && c.sliceUses(x)
-			}
-			if fv, ok := x.X.(*ssa.FreeVar); ok {
-				_ = fv
-				return c.fail("key slice is read through a captured variable outside its defining function")
-			}
-		}
-	}
-	return c.fail(fmt.Sprintf("key slice %s (%s) is not built only from original keys", v.Name(), v.String()))
-}
-
-// cell: a local variable holding the key slice; all its stores are raw slices and it is otherwise only
-// loaded, or captured by closures that only read it.
-func (c *c20Raw) cell(a *ssa.Alloc) bool {
-	if c.memo[a] == 1 {
-		return true
-	}
-	c.memo[a] = 1
-	for _, rr := range refs(a) {
-		switch x := rr.(type) {
-		case *ssa.Store:
-			if x.Addr != ssa.Value(a) {
-				return c.fail("the key slice variable's address is stored")
-			}
-			if !c.slice(x.Val) {
-				return false
-			}
-		case *ssa.UnOp:
-			if x.Op != token.MUL {
-				return c.fail("unexpected use of the key slice variable")
-			}
-			if !c.sliceUses(x) {
-				return false
-			}
-		case *ssa.MakeClosure:
-			cl, _ := x.Fn.(*ssa.Function)
-			if cl == nil {
-				return c.fail("key slice variable captured by an unknown closure")
-			}
-			for i, b := range x.Bindings {
-				if b != ssa.Value(a) {
+// accum splits the definitions of a slice variable into its initial values and its `x = append(x, …)` steps.
+func c20Accum(rep ssa.Value) (inits []ssa.Value, steps []*ssa.Call, stepBlocks []*ssa.BasicBlock) {
+	switch x := rep.(type) {
+	case *ssa.Alloc:
+		for _, st := range cellStores(x) {
+			if ap, isAp := isBuiltinCall(st.Val, "append"); isAp {
+				if l, isL := ap.Call.Args[0].(*ssa.UnOp); isL && l.X == ssa.Value(x) {
+					steps = append(steps, ap)
+					stepBlocks = append(stepBlocks, st.Block())
 					continue
 				}
-				if !c.closureReadsOnly(cl.FreeVars[i]) {
-					return c.fail("a closure capturing the key slice writes to it")
-				}
 			}
-		case *ssa.DebugRef:
-		default:
-			return c.fail("the key slice variable escapes")
+			inits = append(inits, st.Val)
+		}
+	case *ssa.Phi:
+		for _, e := range x.Edges {
+			if e == ssa.Value(x) {
+				continue
+			}
+			if ap, isAp := isBuiltinCall(e, "append"); isAp && ap.Call.Args[0] == ssa.Value(x) {
+				dup := false
+				for _, s := range steps {
+					if s == ap {
+						dup = true
+					}
+				}
+				if !dup {
+					steps = append(steps, ap)
+					stepBlocks = append(stepBlocks, ap.Block())
+				}
+				continue
+			}
+			inits = append(inits, e)
 		}
 	}
-	return true
+	return
 }
 
-func (c *c20Raw) closureReadsOnly(fv *ssa.FreeVar) bool {
+// appendedElem returns the single element appended by `append(x, e)`.
+func c20AppendedElem(ap *ssa.Call) (litElem, bool) {
+	if len(ap.Call.Args) != 2 {
+		return litElem{}, false
+	}
+	arr := sliceLit(ap.Call.Args[1])
+	if arr == nil {
+		return litElem{}, false
+	}
+	el, ok := litElems(arr)
+	if !ok || len(el) != 1 {
+		return litElem{}, false
+	}
+	return el[0], true
+}
+
+func (c *c20Lab) coll(S ssa.Value) *c20Coll {
+	rep := c20RepOf(S)
+	if rep == nil {
+		return nil
+	}
+	if cl, ok := c.colls[rep]; ok {
+		return cl
+	}
+	cl := &c20Coll{rep: rep, roles: map[string]c20Role{}}
+	c.colls[rep] = cl
+	inits, steps, stepBlocks := c20Accum(rep)
+	if len(steps) != 1 || len(inits) != 1 {
+		cl.why = fmt.Sprintf("the slice has %d initialisations and %d appends (need one each)", len(inits), len(steps))
+		return cl
+	}
+	el, ok := c20AppendedElem(steps[0])
+	if !ok {
+		cl.why = "the append does not add exactly one element"
+		return cl
+	}
+	// element
+	if base := el.structBase(); base != nil && namedStruct(base.Type()) != nil {
+		st := namedStruct(base.Type())
+		cl.records = true
+		for i := 0; i < st.NumFields(); i++ {
+			f := st.Field(i).Name()
+			vs := fieldStores(base, f)
+			if len(vs) == 0 {
+				continue // zero value: carries no label data
+			}
+			if len(vs) != 1 {
+				cl.why = "field " + f + " of the collected record is stored more than once"
+				return cl
+			}
+			cls, okc := c.classify(vs[0], 0)
+			if !okc || cls.tok.next == nil || (cl.next != nil && cls.tok.next != cl.next) {
+				cl.why = "field " + f + " of the collected record does not stem from the current entry of range obj.Labels (" + c.why + ")"
+				return cl
+			}
+			cl.next = cls.tok.next
+			cl.roles[f] = cls.role
+		}
+		if a, isA := base.(*ssa.Alloc); isA {
+			if _, ro := readOnlyLiteral(a); !ro {
+				cl.why = "the collected record is modified after it was built"
+				return cl
+			}
+		}
+	} else if el.val != nil {
+		cls, okc := c.classify(el.val, 0)
+		if !okc || cls.tok.next == nil || cls.role != c20Key {
+			cl.why = "the appended element is not the key of range obj.Labels (" + c.why + ")"
+			return cl
+		}
+		cl.next = cls.tok.next
+	} else {
+		cl.why = "the appended element is not understood"
+		return cl
+	}
+	if cl.next == nil {
+		cl.why = "the collected elements carry no label data"
+		return cl
+	}
+	if why := c.collUses(cl); why != "" {
+		cl.why = why
+		return cl
+	}
+	cl.ok = true
+	// completeness
+	header := cl.next.Block()
+	switch {
+	case !c20IsEmptySlice(inits[0]):
+		cl.whyC = "the collection does not start empty"
+	case len(header.Succs) != 2:
+		cl.whyC = "undecided: range loop shape"
+	case !onEveryIteration(c.fn, header.Succs[0], header, stepBlocks[0]):
+		cl.whyC = "some label keys are skipped (the append is not executed on every iteration)"
+	default:
+		cl.complete = true
+	}
+	return cl
+}
+
+// collUses: every use of the collection keeps it a multiset of entries: element reads, len, the
+// append step, permutation by sort (also through sort.Interface methods of its named type, which
+// must only move elements), read-only capture by closures.
+func (c *c20Lab) collUses(cl *c20Coll) string {
+	seen := map[ssa.Value]bool{}
+	var uses func(v ssa.Value) string
+	elemAddr := func(x *ssa.IndexAddr) string {
+		for _, r2 := range refs(x) {
+			switch y := r2.(type) {
+			case *ssa.UnOp:
+				if y.Op != token.MUL {
+					return "address of an element is used"
+				}
+			case *ssa.FieldAddr:
+				for _, r3 := range refs(y) {
+					if l, isL := r3.(*ssa.UnOp); !isL || l.Op != token.MUL {
+						if _, isD := r3.(*ssa.DebugRef); !isD {
+							return "a field of a collected element is written or its address escapes"
+						}
+					}
+				}
+			case *ssa.Call:
+				// method on the element taking its address: only known readers
+				if !knownReader(calleeName(&y.Call)) {
+					return "a collected element is passed to " + calleeName(&y.Call)
+				}
+			case *ssa.DebugRef:
+			default:
+				return "an element of the collection is written outside the append"
+			}
+		}
+		return ""
+	}
+	uses = func(v ssa.Value) string {
+		if seen[v] {
+			return ""
+		}
+		seen[v] = true
+		for _, rr := range refs(v) {
+			switch x := rr.(type) {
+			case *ssa.IndexAddr:
+				if why := elemAddr(x); why != "" {
+					return why
+				}
+			case *ssa.Index, *ssa.DebugRef, *ssa.Return:
+				if _, isRet := rr.(*ssa.Return); isRet {
+					return "the collection itself is returned"
+				}
+			case *ssa.Phi:
+				if c20RepOf(x) != cl.rep {
+					return "the collection is merged with another slice"
+				}
+				if why := uses(x); why != "" {
+					return why
+				}
+			case *ssa.Store:
+				if x.Addr != cl.rep || x.Val != v {
+					return "the collection is stored outside its variable"
+				}
+			case *ssa.Slice, *ssa.ChangeType, *ssa.Convert:
+				if why := uses(rr.(ssa.Value)); why != "" {
+					return why
+				}
+			case *ssa.Call:
+				n := calleeName(&x.Call)
+				switch {
+				case strings.HasPrefix(n, "builtin:len"), strings.HasPrefix(n, "builtin:cap"), strings.HasPrefix(n, "builtin:append"):
+				case strings.HasPrefix(n, "sort.Strings"), strings.HasPrefix(n, "slices.Sort"), strings.HasPrefix(n, "sort.Sort"), strings.HasPrefix(n, "sort.Stable"):
+				default:
+					return "the collection is passed to " + n
+				}
+			case *ssa.MakeInterface:
+				for _, r2 := range refs(x) {
+					call, ok := r2.(*ssa.Call)
+					if !ok {
+						if _, isD := r2.(*ssa.DebugRef); isD {
+							continue
+						}
+						return "the collection is converted to an interface and kept"
+					}
+					n := calleeName(&call.Call)
+					if !strings.HasPrefix(n, "sort.Slice") && !strings.HasPrefix(n, "sort.Sort") && !strings.HasPrefix(n, "sort.Stable") {
+						return "the collection is passed to " + n
+					}
+				}
+				// sort.Interface: the methods of the named type may only move elements
+				if why := c.permutingMethods(x.X.Type()); why != "" {
+					return why
+				}
+			default:
+				return "unexpected use of the collection: " + rr.String()
+			}
+		}
+		return ""
+	}
+	switch rep := cl.rep.(type) {
+	case *ssa.Phi:
+		if why := uses(rep); why != "" {
+			return why
+		}
+		_, steps, _ := c20Accum(rep)
+		for _, s := range steps {
+			if why := uses(s); why != "" {
+				return why
+			}
+		}
+	case *ssa.Alloc:
+		for _, rr := range refs(rep) {
+			switch x := rr.(type) {
+			case *ssa.Store:
+				if x.Addr != ssa.Value(rep) {
+					return "the address of the collection variable is stored"
+				}
+			case *ssa.UnOp:
+				if x.Op != token.MUL {
+					return "unexpected use of the collection variable"
+				}
+				if why := uses(x); why != "" {
+					return why
+				}
+			case *ssa.MakeClosure:
+				cf, _ := x.Fn.(*ssa.Function)
+				if cf == nil {
+					return "the collection variable is captured by an unknown closure"
+				}
+				for i, b := range x.Bindings {
+					if b == ssa.Value(rep) && !c20ClosureReadsOnly(cf.FreeVars[i]) {
+						return "a closure capturing the collection writes to it"
+					}
+				}
+			case *ssa.DebugRef:
+			default:
+				return "the collection variable escapes"
+			}
+		}
+	}
+	return ""
+}
+
+func c20ClosureReadsOnly(fv *ssa.FreeVar) bool {
 	for _, rr := range refs(fv) {
 		u, ok := rr.(*ssa.UnOp)
 		if !ok || u.Op != token.MUL {
@@ -847,7 +1220,18 @@ func (c *c20Raw) closureReadsOnly(fv *ssa.FreeVar) bool {
 			switch y := r2.(type) {
 			case *ssa.IndexAddr:
 				for _, r3 := range refs(y) {
-					if l, isL := r3.(*ssa.UnOp); !isL || l.Op != token.MUL {
+					switch z := r3.(type) {
+					case *ssa.UnOp:
+						if z.Op != token.MUL {
+							return false
+						}
+					case *ssa.FieldAddr:
+						for _, r4 := range refs(z) {
+							if l, isL := r4.(*ssa.UnOp); !isL || l.Op != token.MUL {
+								return false
+							}
+						}
+					default:
 						return false
 					}
 				}
@@ -864,87 +1248,252 @@ func (c *c20Raw) closureReadsOnly(fv *ssa.FreeVar) bool {
 	return true
 }
 
-// sliceUses: the uses of one SSA slice value keep it a multiset of raw keys: element loads, element
-// stores of raw keys, len, append, storing back to a raw cell, phi, and permutation by sort.
-func (c *c20Raw) sliceUses(v ssa.Value) bool {
-	for _, rr := range refs(v) {
-		switch x := rr.(type) {
-		case *ssa.IndexAddr:
-			for _, r2 := range refs(x) {
-				switch y := r2.(type) {
-				case *ssa.UnOp:
-					if y.Op != token.MUL {
-						return c.fail("address of a key slice element is used")
+// permutingMethods: the repository methods of a named slice type store into elements of the
+// receiver only values loaded from elements of the receiver (Swap), so sorting through
+// sort.Interface permutes the collection.
+func (c *c20Lab) permutingMethods(t types.Type) string {
+	named, ok := t.(*types.Named)
+	if !ok {
+		return ""
+	}
+	for _, tt := range []types.Type{named, types.NewPointer(named)} {
+		ms := c.prog.SSA.MethodSets.MethodSet(tt)
+		for i := 0; i < ms.Len(); i++ {
+			m := c.prog.SSA.MethodValue(ms.At(i))
+			if m == nil || len(m.Blocks) == 0 || m.Synthetic != "" || len(m.Params) == 0 {
+				continue
+			}
+			recv := m.Params[0]
+			fromRecv := func(v ssa.Value) bool {
+				root, _ := deepPath(v)
+				return root == ssa.Value(recv)
+			}
+			for _, b := range m.Blocks {
+				for _, in := range b.Instrs {
+					switch x := in.(type) {
+					case *ssa.Store:
+						if !fromRecv(x.Addr) {
+							continue
+						}
+						if u, isL := x.Val.(*ssa.UnOp); !isL || u.Op != token.MUL || !fromRecv(u.X) {
+							return "method " + m.Name() + " of the collection's type writes something other than one of its own elements"
+						}
+					case *ssa.MapUpdate:
+						return "method " + m.Name() + " of the collection's type updates a map"
 					}
-				case *ssa.Store:
-					if y.Addr != ssa.Value(x) || !c.key(y.Val) {
-						return c.fail("an element that is not an original key is stored into the key slice")
-					}
-				case *ssa.DebugRef:
-				default:
-					return c.fail("address of a key slice element escapes")
 				}
 			}
-		case *ssa.Index, *ssa.DebugRef:
-		case *ssa.Phi:
-			if !c.slice(x) {
-				return false
-			}
-		case *ssa.Store:
-			a, ok := x.Addr.(*ssa.Alloc)
-			if !ok || x.Val != v {
-				return c.fail("the key slice is stored outside a local variable")
-			}
-			if !c.cell(a) {
-				return false
-			}
-		case *ssa.Slice:
-			// re-slicing keeps a sub-multiset
-			if !c.sliceUses(x) {
-				return false
-			}
-		case *ssa.Call:
-			if _, ok := isBuiltinCall(x, "len"); ok {
-				continue
-			}
-			if _, ok := isBuiltinCall(x, "cap"); ok {
-				continue
-			}
-			if _, ok := isBuiltinCall(x, "append"); ok {
-				continue
-			}
-			switch calleeName(&x.Call) {
-			case "sort.Strings", "slices.Sort":
-				c.sorted = true
-				continue
-			}
-			return c.fail("the key slice is passed to " + calleeName(&x.Call))
-		case *ssa.MakeInterface:
-			for _, r2 := range refs(x) {
-				call, ok := r2.(*ssa.Call)
-				if !ok {
-					if _, isD := r2.(*ssa.DebugRef); isD {
-						continue
-					}
-					return c.fail("the key slice is converted to an interface and kept")
-				}
-				switch calleeName(&call.Call) {
-				case "sort.Slice", "sort.SliceStable":
-					c.sorted = true
-				default:
-					return c.fail("the key slice is passed to " + calleeName(&call.Call))
-				}
-			}
-		case *ssa.ChangeType, *ssa.Convert:
-			// e.g. sort.StringSlice(keys)
-			if !c.sliceUses(rr.(ssa.Value)) {
-				return false
-			}
-		default:
-			return c.fail(fmt.Sprintf("unexpected use of the key slice: %s", rr.String()))
 		}
 	}
-	return true
+	return ""
+}
+
+// classify follows a string back to (entry token, role).
+func (c *c20Lab) classify(v ssa.Value, depth int) (c20Cls, bool) {
+	if depth > 12 {
+		return c.fail("value too deep")
+	}
+	switch x := v.(type) {
+	case *ssa.Extract:
+		if nx := c.labelsNext(x); nx != nil {
+			switch x.Index {
+			case 1:
+				return c20Cls{c20Tok{next: nx}, c20Key}, true
+			case 2:
+				return c20Cls{c20Tok{next: nx}, c20Value}, true
+			}
+		}
+		if l, ok := x.Tuple.(*ssa.Lookup); ok && x.Index == 0 {
+			return c.classify(l, depth+1)
+		}
+	case *ssa.Lookup:
+		if c.isLabelsMap(x.X) {
+			kc, ok := c.classify(x.Index, depth+1)
+			if !ok {
+				return kc, false
+			}
+			if kc.role != c20Key {
+				return c.fail("obj.Labels is indexed with a derived (" + kc.role.String() + ") value, not an original key")
+			}
+			return c20Cls{kc.tok, c20Value}, true
+		}
+	case *ssa.Call:
+		if _, isB := x.Call.Value.(*ssa.Builtin); !isB && staticCallee(&x.Call) != nil {
+			var arg ssa.Value
+			n := 0
+			for _, a := range x.Call.Args {
+				if _, isC := a.(*ssa.Const); isC {
+					continue
+				}
+				n++
+				arg = a
+			}
+			if n == 1 {
+				kc, ok := c.classify(arg, depth+1)
+				if !ok {
+					return kc, false
+				}
+				if kc.role != c20Key {
+					return c.fail("a key image is computed from a " + kc.role.String())
+				}
+				return c20Cls{kc.tok, c20Name}, true
+			}
+		}
+	case *ssa.Phi:
+		var out c20Cls
+		for i, e := range x.Edges {
+			ec, ok := c.classify(e, depth+1)
+			if !ok {
+				return ec, false
+			}
+			if i > 0 && ec != out {
+				return c.fail("a value merges different label entries")
+			}
+			out = ec
+		}
+		return out, len(x.Edges) > 0
+	case *ssa.Field:
+		return c.classifyField(x.X, fieldName(x), depth)
+	case *ssa.UnOp:
+		if x.Op != token.MUL {
+			break
+		}
+		switch a := x.X.(type) {
+		case *ssa.IndexAddr:
+			cl := c.coll(a.X)
+			if cl == nil || !cl.ok || cl.records {
+				why := "element of a slice that is not a collection of label keys"
+				if cl != nil && cl.why != "" {
+					why = cl.why
+				}
+				return c.fail(why)
+			}
+			return c20Cls{c20Tok{coll: cl, idx: a.Index}, c20Key}, true
+		case *ssa.FieldAddr:
+			return c.classifyField(a.X, fieldName(a), depth)
+		case *ssa.Alloc:
+			sts := cellStores(a)
+			if len(sts) == 0 || len(sts) != len(refsStores(a)) {
+				return c.fail("a variable is written through an alias")
+			}
+			var out c20Cls
+			for i, st := range sts {
+				ec, ok := c.classify(st.Val, depth+1)
+				if !ok {
+					return ec, false
+				}
+				if i > 0 && ec != out {
+					return c.fail("a variable holds different label entries")
+				}
+				out = ec
+			}
+			return out, true
+		}
+	}
+	return c.fail(fmt.Sprintf("%s (%s) does not stem from an entry of obj.Labels", v.Name(), v.String()))
+}
+
+// classifyField: field f of a collected record (element address, or a read-only local copy of an element).
+func (c *c20Lab) classifyField(base ssa.Value, f string, depth int) (c20Cls, bool) {
+	var ia *ssa.IndexAddr
+	switch b := base.(type) {
+	case *ssa.IndexAddr:
+		ia = b
+	case *ssa.Alloc:
+		if st, ro := readOnlyCopy(b); ro {
+			if u, ok := st.Val.(*ssa.UnOp); ok && u.Op == token.MUL {
+				ia, _ = u.X.(*ssa.IndexAddr)
+			}
+		}
+	case *ssa.UnOp:
+		if b.Op == token.MUL {
+			ia, _ = b.X.(*ssa.IndexAddr)
+		}
+	}
+	if ia == nil {
+		return c.fail("field " + f + " of something that is not a collected label record")
+	}
+	cl := c.coll(ia.X)
+	if cl == nil || !cl.ok || !cl.records {
+		why := "field of an element of a slice that is not a collection of label records"
+		if cl != nil && cl.why != "" {
+			why = cl.why
+		}
+		return c.fail(why)
+	}
+	role, ok := cl.roles[f]
+	if !ok {
+		return c.fail("field " + f + " of the collected record carries no label data")
+	}
+	return c20Cls{c20Tok{coll: cl, idx: ia.Index}, role}, true
+}
+
+func refsStores(a *ssa.Alloc) []*ssa.Store {
+	var out []*ssa.Store
+	for _, rr := range refs(a) {
+		if st, ok := rr.(*ssa.Store); ok {
+			out = append(out, st)
+		}
+	}
+	return out
+}
+
+// c20Write is one write into a result slice: by index (MakeSlice + store) or by append.
+type c20Write struct {
+	val   ssa.Value
+	block *ssa.BasicBlock
+	index ssa.Value // index store
+	phi   *ssa.Phi  // append form: the accumulating variable
+	mk    *ssa.MakeSlice
+	pos   token.Pos
+}
+
+func c20ResultWrite(v ssa.Value) (*c20Write, string) {
+	if mk, ok := v.(*ssa.MakeSlice); ok {
+		var w *c20Write
+		for _, rr := range refs(mk) {
+			switch x := rr.(type) {
+			case *ssa.IndexAddr:
+				for _, r2 := range refs(x) {
+					if s2, isSt := r2.(*ssa.Store); isSt && s2.Addr == ssa.Value(x) {
+						if w != nil {
+							return nil, "more than one element store"
+						}
+						w = &c20Write{val: s2.Val, block: s2.Block(), index: x.Index, mk: mk, pos: instrPos(s2)}
+					} else if _, isLoad := r2.(*ssa.UnOp); !isLoad {
+						if _, isD := r2.(*ssa.DebugRef); !isD {
+							return nil, "element address escapes"
+						}
+					}
+				}
+			case *ssa.Return, *ssa.DebugRef:
+			case *ssa.Call:
+				if _, isLen := isBuiltinCall(x, "len"); !isLen {
+					return nil, "slice is passed to a call"
+				}
+			default:
+				return nil, "slice is used by " + rr.String()
+			}
+		}
+		if w == nil {
+			return nil, "no element store"
+		}
+		return w, ""
+	}
+	rep := c20RepOf(v)
+	ph, ok := rep.(*ssa.Phi)
+	if !ok {
+		return nil, "the result is neither a slice made with a length and filled by index nor a slice appended to in a loop"
+	}
+	inits, steps, blocks := c20Accum(ph)
+	if len(inits) != 1 || len(steps) != 1 || !c20IsEmptySlice(inits[0]) {
+		return nil, fmt.Sprintf("the result has %d initialisations and %d appends (need an empty start and one append)", len(inits), len(steps))
+	}
+	el, ok := c20AppendedElem(steps[0])
+	if !ok || el.val == nil {
+		return nil, "the append does not add exactly one string"
+	}
+	return &c20Write{val: el.val, block: blocks[0], phi: ph, pos: steps[0].Pos()}, ""
 }
 
 func c20BuildInfoLabels(r *Run, fn *ssa.Function) {
@@ -954,12 +1503,11 @@ func c20BuildInfoLabels(r *Run, fn *ssa.Function) {
 		r.Undecided("C20.R2", "signature", pos, sf, "unexpected signature")
 		return
 	}
-	c := &c20Raw{fn: fn, obj: fn.Params[0], memo: map[ssa.Value]int{}}
+	c := &c20Lab{prog: r.Prog, fn: fn, obj: fn.Params[0], k: newKeyer(fn), colls: map[ssa.Value]*c20Coll{}}
 
-	// (a) every lookup into obj.Labels, in the function and its closures, uses a raw key
+	// (a) every lookup into obj.Labels, in the function and its closures, uses an original key
 	nLookups := 0
-	fns := []*ssa.Function{fn}
-	fns = append(fns, fn.AnonFuncs...)
+	fns := append([]*ssa.Function{fn}, fn.AnonFuncs...)
 	for _, f := range fns {
 		for _, b := range f.Blocks {
 			for _, in := range b.Instrs {
@@ -968,7 +1516,6 @@ func c20BuildInfoLabels(r *Run, fn *ssa.Function) {
 					continue
 				}
 				if f != fn {
-					// a closure cannot see the parameter except through a capture; any map lookup in it whose map derives from a capture is undecided
 					r.Undecided("C20.R2", "lookup in closure", r.Prog.Pos(instrPos(lk)), shortFunc(f), "map lookup inside a closure of BuildInfoLabels")
 					continue
 				}
@@ -976,19 +1523,21 @@ func c20BuildInfoLabels(r *Run, fn *ssa.Function) {
 					continue
 				}
 				nLookups++
-				c.why, c.memo = "", map[ssa.Value]int{}
-				ok2 := c.key(lk.Index)
+				c.why = ""
+				kc, ok2 := c.classify(lk.Index, 0)
+				if ok2 && kc.role != c20Key {
+					ok2, c.why = false, "the index is a "+kc.role.String()+" of a label entry, not its original key"
+				}
 				r.Check("C20.R2", fmt.Sprintf("lookup %d key domain", nLookups), r.Prog.Pos(instrPos(lk)), sf,
 					"index into obj.Labels is an original key of obj.Labels (element of range obj.Labels, unchanged)", ok2, c.why)
 			}
 		}
 	}
 	if nLookups == 0 {
-		r.Check("C20.R2", "lookup key domain", pos, sf, "label values are read from obj.Labels", false, "no lookup into obj.Labels found")
+		o := r.Check("C20.R2", "lookup 1 key domain", pos, sf, "no lookup into obj.Labels: the values must be the range values (decided by the pairing obligation)", true, "")
+		o.Trivial = true
 	}
 
-	// (b) pairing of the two results, (c) coverage
-	k := newKeyer(fn)
 	for _, b := range fn.Blocks {
 		ret := returnOf(b)
 		if ret == nil {
@@ -999,261 +1548,142 @@ func c20BuildInfoLabels(r *Run, fn *ssa.Function) {
 			r.Undecided("C20.R2", "results", rpos, sf, "unexpected result count")
 			continue
 		}
-		c20Fill(r, c, k, fn, ret)
+		c20Fill(r, c, fn, ret)
 	}
 }
 
-// c20Fill checks the index-store idiom: K := make(n); V := make(n); for i, key := range S { K[i] = f(key); V[i] = obj.Labels[key] }.
-func c20Fill(r *Run, c *c20Raw, k *keyer, fn *ssa.Function, ret *ssa.Return) {
+// c20Fill checks the two results: position-wise, the key slice holds the image (or the key itself) and
+// the value slice the value of one and the same label entry; every entry is written once.
+func c20Fill(r *Run, c *c20Lab, fn *ssa.Function, ret *ssa.Return) {
 	sf := shortFunc(fn)
 	rpos := r.Prog.Pos(instrPos(ret))
-	K, okK := ret.Results[0].(*ssa.MakeSlice)
-	V, okV := ret.Results[1].(*ssa.MakeSlice)
+	k := c.k
+	const (
+		cPair = "pairing of key and value stores"
+		cFill = "fill loop covers every collected key"
+		cColl = "every label key is collected once"
+	)
 	undecidedAll := func(pos, why string) {
-		for _, c := range []string{"pairing of key and value stores", "fill loop covers every collected key", "every label key is collected once"} {
-			r.Undecided("C20.R2", c, pos, sf, why)
+		for _, cc := range []string{cPair, cFill, cColl} {
+			r.Undecided("C20.R2", cc, pos, sf, why)
 		}
 	}
-	if !okK || !okV {
-		undecidedAll(rpos, "results are not two slices made with a length and filled by index (the only idiom the rule decides)")
-		return
-	}
-	single := func(s *ssa.MakeSlice) (*ssa.Store, *ssa.IndexAddr, string) {
-		var st *ssa.Store
-		var at *ssa.IndexAddr
-		for _, rr := range refs(s) {
-			switch x := rr.(type) {
-			case *ssa.IndexAddr:
-				for _, r2 := range refs(x) {
-					if s2, isSt := r2.(*ssa.Store); isSt && s2.Addr == ssa.Value(x) {
-						if st != nil {
-							return nil, nil, "more than one element store"
-						}
-						st, at = s2, x
-					} else if _, isLoad := r2.(*ssa.UnOp); !isLoad {
-						if _, isD := r2.(*ssa.DebugRef); !isD {
-							return nil, nil, "element address escapes"
-						}
-					}
-				}
-			case *ssa.Return, *ssa.DebugRef:
-			case *ssa.Call:
-				if _, isLen := isBuiltinCall(x, "len"); !isLen {
-					return nil, nil, "slice is passed to a call"
-				}
-			default:
-				return nil, nil, "slice is used by " + rr.String()
-			}
-		}
-		if st == nil {
-			return nil, nil, "no element store"
-		}
-		return st, at, ""
-	}
-	ks, kAt, why1 := single(K)
-	vs, vAt, why2 := single(V)
-	if ks == nil || vs == nil {
+	kw, why1 := c20ResultWrite(ret.Results[0])
+	vw, why2 := c20ResultWrite(ret.Results[1])
+	if kw == nil || vw == nil {
 		undecidedAll(rpos, "key slice: "+why1+"; value slice: "+why2)
 		return
 	}
-	// value = obj.Labels[key]
-	var key ssa.Value
-	vv := vs.Val
-	if ex, ok := vv.(*ssa.Extract); ok && ex.Index == 0 {
-		vv = ex.Tuple
+	spos := r.Prog.Pos(vw.pos)
+	c.why = ""
+	kc, okK := c.classify(kw.val, 0)
+	whyK := c.why
+	c.why = ""
+	vc, okV := c.classify(vw.val, 0)
+	whyV := c.why
+	pairOK := okK && okV
+	detail := ""
+	switch {
+	case !okK:
+		detail = "label key: " + whyK
+	case !okV:
+		detail = "label value: " + whyV
+	case kc.role == c20Value || vc.role != c20Value:
+		pairOK, detail = false, fmt.Sprintf("the key slice receives a %s and the value slice a %s of a label entry (need name/key and value)", kc.role, vc.role)
+	case kc.tok != vc.tok:
+		pairOK, detail = false, "the label name and the label value written at one position belong to different entries of obj.Labels (the value is not read with the key the name was computed from)"
+	case kw.block != vw.block:
+		pairOK, detail = false, "name and value are written in different blocks (one of them can be skipped)"
+	case (kw.mk == nil) != (vw.mk == nil):
+		pairOK, detail = false, "one result is filled by index and the other by append"
+	case kw.mk != nil && kw.index != vw.index:
+		pairOK, detail = false, "name and value are stored at different indices"
+	default:
+		detail = fmt.Sprintf("position-wise: %s and %s of the same entry", kc.role, vc.role)
 	}
-	if lk, ok := vv.(*ssa.Lookup); ok && c.isLabelsMap(lk.X) {
-		key = lk.Index
-	}
-	spos := r.Prog.Pos(instrPos(vs))
-	if key == nil {
-		r.Check("C20.R2", "pairing of key and value stores", spos, sf, "the stored label value is obj.Labels[key]", false, "stored value is "+vs.Val.String())
-		undecidedAll2 := []string{"fill loop covers every collected key", "every label key is collected once"}
-		for _, c := range undecidedAll2 {
-			r.Undecided("C20.R2", c, spos, sf, "the stored label value is not a lookup into obj.Labels")
-		}
+	r.Check("C20.R2", cPair, spos, sf,
+		"at every position the key slice holds the name computed from (or equal to) an original key k of obj.Labels and the value slice holds obj.Labels[k] for the same k", pairOK, detail)
+	if !pairOK {
+		r.Undecided("C20.R2", cFill, spos, sf, "pairing not established")
+		r.Undecided("C20.R2", cColl, spos, sf, "pairing not established")
 		return
 	}
-	c.why, c.memo = "", map[ssa.Value]int{}
-	rawOK := c.key(key)
-	samePos := ks.Block() == vs.Block() && kAt.Index == vAt.Index
-	// key image: a call whose only non-constant string argument is the same key value
-	imgOK := false
-	imgWhy := "stored key is " + ks.Val.String()
-	if call, ok := ks.Val.(*ssa.Call); ok {
-		n := 0
-		same := true
-		for _, a := range call.Call.Args {
-			if _, isC := a.(*ssa.Const); isC {
-				continue
-			}
-			n++
-			if a != key {
-				same = false
-			}
-		}
-		if n == 1 && same && staticCallee(&call.Call) != nil {
-			imgOK = true
-			imgWhy = "key image " + calleeName(&call.Call) + "(key)"
-		} else {
-			imgWhy = "the sanitised key is computed from a different value than the key used for the lookup"
-		}
-	} else if ks.Val == key {
-		imgOK = true
-		imgWhy = "key stored unchanged"
-	}
-	r.Check("C20.R2", "pairing of key and value stores", spos, sf,
-		"labelValues[i] = obj.Labels[k] and labelKeys[i] = sanitise(k) for the same original key k and the same index i, in the same block",
-		rawOK && samePos && imgOK, fmt.Sprintf("original key=%v (%s) same block and index=%v; %s", rawOK, c.why, samePos, imgWhy))
-
-	// coverage: key = S[i], i runs over every index of S, K and V have len(S)
-	var S ssa.Value
-	var idx ssa.Value
-	if u, ok := key.(*ssa.UnOp); ok && u.Op == token.MUL {
-		if ia, ok := u.X.(*ssa.IndexAddr); ok {
-			S, idx = ia.X, ia.Index
-		}
-	}
+	tok := vc.tok
+	// the loop that produces the positions
+	var header, body *ssa.BasicBlock
 	covOK, covWhy := false, ""
 	switch {
-	case S == nil:
-		covWhy = "undecided: the key is not an element S[i] of a collected key slice"
-	case idx != kAt.Index:
-		covWhy = "the key is read at a different index than the one the results are stored at"
+	case tok.next != nil:
+		header = tok.next.Block()
+		if kw.mk != nil {
+			covWhy = "undecided: index stores inside the range over the map"
+		} else {
+			covOK = true
+		}
 	default:
-		covOK, covWhy = c20FullIndexLoop(fn, k, idx, S, ks.Block())
-		if covOK {
-			lk, lv, ls := k.key(K.Len), k.key(V.Len), "builtin:len("+k.key(S)+")"
-			if lk != ls || lv != ls {
-				covOK, covWhy = false, fmt.Sprintf("result lengths %s / %s differ from the number of collected keys %s", lk, lv, ls)
-			}
-		}
-	}
-	r.Check("C20.R2", "fill loop covers every collected key", spos, sf,
-		"the loop stores at every index 0..len(S)-1 of the collected key slice S, and both results have length len(S)", covOK, covWhy)
-
-	// collection: S receives exactly one original key per iteration of range obj.Labels, and nothing after
-	colOK, colWhy := c20Collection(fn, c, S, ks.Block())
-	r.Check("C20.R2", "every label key is collected once", r.Prog.Pos(fn.Pos()), sf,
-		"the key slice starts empty and gets exactly one append of the range key on every iteration of range obj.Labels; it is not reassigned afterwards", colOK, colWhy)
-}
-
-// c20FullIndexLoop: idx enumerates 0..len(S)-1 (range-over-slice or the classic for loop) and block b
-// runs on every iteration.
-func c20FullIndexLoop(fn *ssa.Function, k *keyer, idx, S ssa.Value, b *ssa.BasicBlock) (bool, string) {
-	header, why := indexLoopOver(k, idx, S)
-	if header == nil {
-		return false, why
-	}
-	body := header.Succs[0]
-	if !onEveryIteration(fn, body, header, b) {
-		return false, "the stores are skipped on some iterations"
-	}
-	return true, "index runs over 0..len(S)-1"
-}
-
-func c20Collection(fn *ssa.Function, c *c20Raw, S ssa.Value, after *ssa.BasicBlock) (bool, string) {
-	if S == nil {
-		return false, "undecided: no collected key slice"
-	}
-	var inits []ssa.Value
-	var steps []*ssa.Call
-	var stepBlocks []*ssa.BasicBlock
-	switch x := S.(type) {
-	case *ssa.UnOp:
-		a, ok := x.X.(*ssa.Alloc)
-		if !ok || x.Op != token.MUL {
-			return false, "undecided: collected key slice is not a local variable"
-		}
-		for _, st := range cellStores(a) {
-			if ap, isAp := isBuiltinCall(st.Val, "append"); isAp {
-				if l, isL := ap.Call.Args[0].(*ssa.UnOp); isL && l.X == ssa.Value(a) {
-					steps = append(steps, ap)
-					stepBlocks = append(stepBlocks, st.Block())
-					continue
+		h, why := indexLoopOver(k, tok.idx, c20CollValue(tok))
+		header, covWhy = h, why
+		covOK = h != nil
+		if covOK && kw.mk != nil {
+			if kw.index != tok.idx {
+				covOK, covWhy = false, "the entry is read at a different index than the one the results are stored at"
+			} else {
+				lk, lv, ls := k.key(kw.mk.Len), k.key(vw.mk.Len), "builtin:len("+k.key(c20CollValue(tok))+")"
+				if lk != ls || lv != ls {
+					covOK, covWhy = false, fmt.Sprintf("result lengths %s / %s differ from the number of collected entries %s", lk, lv, ls)
 				}
 			}
-			inits = append(inits, st.Val)
 		}
-	case *ssa.Phi:
-		for _, e := range x.Edges {
-			if ap, isAp := isBuiltinCall(e, "append"); isAp && ap.Call.Args[0] == ssa.Value(x) {
-				steps = append(steps, ap)
-				stepBlocks = append(stepBlocks, ap.Block())
-				continue
+	}
+	if covOK {
+		if len(header.Succs) != 2 {
+			covOK, covWhy = false, "undecided: loop shape"
+		} else {
+			body = header.Succs[0]
+			if !onEveryIteration(fn, body, header, vw.block) {
+				covOK, covWhy = false, "the writes are skipped on some iterations"
 			}
-			inits = append(inits, e)
+			if covOK && kw.phi != nil && (kw.phi.Block() != header || vw.phi.Block() != header) {
+				covOK, covWhy = false, "the results are not accumulated by the loop that enumerates the entries"
+			}
 		}
-	default:
-		return false, "undecided: collected key slice is neither a local variable nor a loop phi"
 	}
-	if len(inits) != 1 || len(steps) != 1 {
-		return false, fmt.Sprintf("the key slice has %d initialisations and %d appends (need one each)", len(inits), len(steps))
+	if covOK {
+		covWhy = "one position per entry"
 	}
-	switch x := inits[0].(type) {
-	case *ssa.MakeSlice:
-		if n, ok := constInt(x.Len); !ok || n != 0 {
-			return false, "the key slice does not start empty"
+	r.Check("C20.R2", cFill, spos, sf,
+		"the loop writes one position for every collected entry (every index 0..len(S)-1 of the collection, or every iteration of range obj.Labels), and index-filled results have length len(S)", covOK, covWhy)
+
+	colOK, colWhy := true, "entries are taken directly from range obj.Labels"
+	if tok.coll != nil {
+		colOK, colWhy = tok.coll.complete, tok.coll.whyC
+		if colOK {
+			colWhy = "one append per iteration of range obj.Labels"
+			// the fill happens after the collection loop
+			ch := tok.coll.next.Block()
+			if len(ch.Succs) == 2 && !ch.Succs[1].Dominates(vw.block) {
+				colOK, colWhy = false, "the results are filled before the collection loop has finished"
+			}
 		}
-	case *ssa.Const:
-		if !x.IsNil() {
-			return false, "the key slice does not start empty"
+	}
+	r.Check("C20.R2", cColl, r.Prog.Pos(fn.Pos()), sf,
+		"the collection starts empty and gets exactly one entry on every iteration of range obj.Labels; it is not reassigned afterwards", colOK, colWhy)
+}
+
+// c20CollValue returns an SSA value of the collection usable for keys (the slice indexed by the token).
+func c20CollValue(t c20Tok) ssa.Value {
+	// the IndexAddr the token was read from is not kept; the representative's loads share one key
+	switch rep := t.coll.rep.(type) {
+	case *ssa.Phi:
+		return rep
+	case *ssa.Alloc:
+		for _, rr := range refs(rep) {
+			if u, ok := rr.(*ssa.UnOp); ok && u.Op == token.MUL {
+				return u
+			}
 		}
-	case *ssa.Slice:
-		a, ok := x.X.(*ssa.Alloc)
-		if !ok {
-			return false, "the key slice does not start empty"
-		}
-		if at, isArr := a.Type().Underlying().(*types.Pointer).Elem().Underlying().(*types.Array); !isArr || at.Len() != 0 {
-			return false, "the key slice does not start empty"
-		}
-	default:
-		return false, "the key slice does not start empty"
 	}
-	ap := steps[0]
-	if len(ap.Call.Args) != 2 {
-		return false, "append without element"
-	}
-	sl, ok := ap.Call.Args[1].(*ssa.Slice)
-	if !ok {
-		return false, "undecided: appended elements are not a single key"
-	}
-	arr, ok := sl.X.(*ssa.Alloc)
-	if !ok {
-		return false, "undecided: appended elements are not a single key"
-	}
-	elems, ok := orderedArrayElems(arr)
-	if !ok || len(elems) != 1 {
-		return false, fmt.Sprintf("%d elements appended per iteration (need exactly one)", len(elems))
-	}
-	ex, ok := elems[0].(*ssa.Extract)
-	if !ok {
-		return false, "the appended element is not the range key"
-	}
-	nx, ok := ex.Tuple.(*ssa.Next)
-	if !ok || ex.Index != 1 {
-		return false, "the appended element is not the range key"
-	}
-	rg, ok := nx.Iter.(*ssa.Range)
-	if !ok || !c.isLabelsMap(rg.X) {
-		return false, "the appended element is not the key of range obj.Labels"
-	}
-	header := nx.Block()
-	iff, ok := header.Instrs[len(header.Instrs)-1].(*ssa.If)
-	if !ok || len(header.Succs) != 2 {
-		return false, "undecided: range loop shape"
-	}
-	_ = iff
-	body := header.Succs[0]
-	if !onEveryIteration(fn, body, header, stepBlocks[0]) {
-		return false, "some label keys are skipped (the append is not executed on every iteration)"
-	}
-	// the fill happens after the loop: the loop exit dominates the fill block
-	exit := header.Succs[1]
-	if !exit.Dominates(after) {
-		return false, "the results are filled before the collection loop has finished"
-	}
-	return true, "one append of the range key per iteration"
+	return t.coll.rep
 }
 
 var _ = sort.Strings
